@@ -45,7 +45,8 @@ type pruneSentinel struct{}
 type Ctx struct {
 	prefix  []int
 	trace   []Point
-	h       uint64
+	h       uint64 // history hash: choices + observations (state identity)
+	ho      uint64 // observation-only hash (outcome identity)
 	Verbose bool
 	log     []string
 	fail    *Failure
@@ -70,6 +71,17 @@ func (x *Ctx) mix(s string) {
 	x.h = h
 }
 
+func (x *Ctx) mixo(s string) {
+	h := x.ho
+	for i := 0; i < len(s); i++ {
+		h ^= uint64(s[i])
+		h *= fnvPrime
+	}
+	h ^= 0xff
+	h *= fnvPrime
+	x.ho = h
+}
+
 func (x *Ctx) choose(n int, label string, free bool) int {
 	if n <= 0 {
 		panic(fmt.Sprintf("explore: Choose(%d) at %q", n, label))
@@ -89,10 +101,14 @@ func (x *Ctx) choose(n int, label string, free bool) int {
 	}
 	x.trace = append(x.trace, Point{N: n, Chosen: c, Free: free, Label: label})
 	if x.sc != nil {
-		x.sc.noteState(x.h)
+		if i >= len(x.prefix) {
+			// a tree node not visited by any earlier execution (distinct choice/observation history)
+			x.sc.newNodes++
+		}
 		x.sc.transitions++
 	}
-	x.mix(fmt.Sprintf("%s=%d", label, c))
+	x.mix(label)
+	x.mix(string(rune('0' + c)))
 	if x.Verbose {
 		x.log = append(x.log, fmt.Sprintf("choice %s = %d/%d", label, c, n))
 	}
@@ -115,6 +131,7 @@ func (x *Ctx) Obs(format string, a ...any) {
 		s = fmt.Sprintf(format, a...)
 	}
 	x.mix(s)
+	x.mixo(s)
 	x.steps++
 	if x.sc != nil {
 		x.sc.transitions++
@@ -214,14 +231,12 @@ type scenarioRun struct {
 	bound       int
 	prune       bool
 	seen        map[uint64]int
-	states      map[uint64]struct{}
+	newNodes    int64
 	outcomes    map[uint64]struct{}
 	nontrivial  map[uint64]struct{}
 	transitions int64
 	prunedN     int64
 }
-
-func (s *scenarioRun) noteState(h uint64) { s.states[h] = struct{}{} }
 
 // Progress is bumped once per execution; the watchdog uses it.
 var Progress atomic.Int64
@@ -238,7 +253,7 @@ type Options struct {
 
 // Exec runs the body once with the given prefix (then defaults) and returns the context.
 func Exec(sc *Scenario, prefix []int, verbose bool, run *scenarioRun) (x *Ctx) {
-	x = &Ctx{prefix: prefix, h: fnvOff, Verbose: verbose, sc: run}
+	x = &Ctx{prefix: prefix, h: fnvOff, ho: fnvOff, Verbose: verbose, sc: run}
 	defer func() {
 		if r := recover(); r != nil {
 			switch r.(type) {
@@ -284,7 +299,7 @@ func Replay(sc *Scenario, choices []int) *Ctx {
 }
 
 func newRun(sc *Scenario) *scenarioRun {
-	return &scenarioRun{bound: sc.Bound, prune: sc.Prune, seen: map[uint64]int{}, states: map[uint64]struct{}{},
+	return &scenarioRun{bound: sc.Bound, prune: sc.Prune, seen: map[uint64]int{},
 		outcomes: map[uint64]struct{}{}, nontrivial: map[uint64]struct{}{}}
 }
 
@@ -357,9 +372,9 @@ func exploreOne(sc *Scenario, opt Options, res *Result, failKeys map[string]*Fai
 			}
 		}
 		if !x.pruned {
-			run.outcomes[x.h] = struct{}{}
+			run.outcomes[x.ho] = struct{}{}
 			if x.nontriv && hasNonZero(x.trace) {
-				run.nontrivial[x.h] = struct{}{}
+				run.nontrivial[x.ho] = struct{}{}
 			}
 		}
 		if len(res.Samples) < opt.WantSamples && (execs == 1 || execs == 17) {
@@ -398,12 +413,12 @@ func exploreOne(sc *Scenario, opt Options, res *Result, failKeys map[string]*Fai
 	}
 	res.Executions += execs
 	res.Transitions += run.transitions
-	res.States += int64(len(run.states))
+	res.States += run.newNodes + 1
 	res.Outcomes += int64(len(run.outcomes))
 	res.NonTrivial += int64(len(run.nontrivial))
 	res.Pruned += run.prunedN
 	if len(res.PerScenario) < 400 {
-		res.PerScenario = append(res.PerScenario, ScenStat{sc.Name, execs, int64(len(run.states)), int64(len(run.outcomes)), complete})
+		res.PerScenario = append(res.PerScenario, ScenStat{sc.Name, execs, run.newNodes + 1, int64(len(run.outcomes)), complete})
 	}
 	return complete
 }
